@@ -5,6 +5,7 @@ import (
 	"fmt"
 	"net"
 	"os"
+	"sync"
 	"sync/atomic"
 	"testing"
 	"time"
@@ -93,6 +94,161 @@ func c12SockRun(p c12SockPlan) (*common.Fail, string) {
 				}
 			case <-time.After(3 * time.Second):
 				return common.Failf("event-lost", "group router to group router over multicast loopback: event #%d (command %d, %d payload bytes) never arrived at the other client", i, e.Cmd, len(want.Data)), ""
+			}
+		}
+	case "tunnel-duplex":
+		// both directions at once: the gateway tunnels N indications to the client (stop-and-wait, repeating an
+		// unacknowledged one) while the application sends its events; the client's acknowledgements and its
+		// requests leave through one socket from two goroutines. Every datagram the gateway receives is well-formed,
+		// every event arrives once and unchanged, every indication surfaces once and in order.
+		pc, err := net.ListenUDP("udp4", &net.UDPAddr{IP: net.IPv4(127, 0, 0, 1)})
+		if err != nil {
+			return nil, "no loopback"
+		}
+		defer pc.Close()
+		nInd := 3 * len(p.Events)
+		if nInd > 200 {
+			nInd = 200
+		}
+		type gwSeen struct {
+			garbled string
+			events  []knx.GroupEvent
+		}
+		var mu sync.Mutex
+		var seen gwSeen
+		acked := make(chan uint8, 64)
+		var client atomic.Pointer[net.UDPAddr]
+		connected := make(chan struct{})
+		go func() {
+			buf := make([]byte, 2048)
+			lastSeq := -1
+			for {
+				n, from, err := pc.ReadFromUDP(buf)
+				if err != nil {
+					return
+				}
+				if c := client.Load(); c != nil && c.Port != from.Port {
+					continue // a stray datagram of another process
+				}
+				var s knxnet.Service
+				if _, err := knxnet.Unpack(buf[:n], &s); err != nil || !framed(buf[:n]) {
+					mu.Lock()
+					if seen.garbled == "" {
+						seen.garbled = fmt.Sprintf("%x (%v)", buf[:n], err)
+					}
+					mu.Unlock()
+					continue
+				}
+				switch v := s.(type) {
+				case *knxnet.ConnReq:
+					client.Store(from)
+					pc.WriteToUDP(knxnet.AllocAndPack(&knxnet.ConnRes{Channel: 9, Status: knxnet.NoError, Control: knxnet.HostInfo{Protocol: knxnet.UDP4}}), from)
+					select {
+					case <-connected:
+					default:
+						close(connected)
+					}
+				case *knxnet.ConnStateReq:
+					pc.WriteToUDP(knxnet.AllocAndPack(&knxnet.ConnStateRes{Channel: v.Channel, Status: knxnet.NoError}), from)
+				case *knxnet.DiscReq:
+					pc.WriteToUDP(knxnet.AllocAndPack(&knxnet.DiscRes{Channel: v.Channel, Status: 0}), from)
+				case *knxnet.TunnelRes:
+					select {
+					case acked <- v.SeqNumber:
+					default:
+					}
+				case *knxnet.TunnelReq:
+					pc.WriteToUDP(knxnet.AllocAndPack(&knxnet.TunnelRes{Channel: v.Channel, SeqNumber: v.SeqNumber, Status: knxnet.NoError}), from)
+					if int(v.SeqNumber) == lastSeq {
+						continue // a repetition
+					}
+					lastSeq = int(v.SeqNumber)
+					if req, ok := v.Payload.(*cemi.LDataReq); ok {
+						if app, ok := req.Data.(*cemi.AppData); ok {
+							mu.Lock()
+							seen.events = append(seen.events, knx.GroupEvent{Command: knx.GroupCommand(app.Command), Destination: cemi.GroupAddr(req.Destination), Data: append([]byte{}, app.Data...)})
+							mu.Unlock()
+						}
+					}
+				}
+			}
+		}()
+		gt, err := knx.NewGroupTunnel(pc.LocalAddr().String(), knx.TunnelConfig{ResendInterval: 200 * time.Millisecond, ResponseTimeout: 3 * time.Second})
+		if err != nil {
+			return nil, "NewGroupTunnel: " + err.Error()
+		}
+		defer gt.Close()
+		<-connected
+		// gateway -> client
+		go func() {
+			from := client.Load()
+			for i := 0; i < nInd; i++ {
+				req := knxnet.AllocAndPack(&knxnet.TunnelReq{Channel: 9, SeqNumber: uint8(i), Payload: &cemi.LDataInd{LData: confLData(i)}})
+				for try := 0; try < 10; try++ {
+					pc.WriteToUDP(req, from)
+					tm := time.After(300 * time.Millisecond)
+				wait:
+					for {
+						select {
+						case sq := <-acked:
+							if sq == uint8(i) {
+								try = 99
+								break wait
+							}
+						case <-tm:
+							break wait
+						}
+					}
+				}
+			}
+		}()
+		// application: reader and sender at once
+		readDone := make(chan *common.Fail, 1)
+		go func() {
+			for i := 0; i < nInd; i++ {
+				select {
+				case ev, open := <-gt.Inbound():
+					if !open {
+						readDone <- common.Failf("inbound-closed", "group tunnel: Inbound() closed after %d of %d indications", i, nInd)
+						return
+					}
+					tag := -1
+					if len(ev.Data) == 5 {
+						tag = int(ev.Data[1])<<24 | int(ev.Data[2])<<16 | int(ev.Data[3])<<8 | int(ev.Data[4])
+					}
+					if tag != i {
+						readDone <- common.Failf("event-differs", "group tunnel with traffic in both directions: indication #%d surfaced as %+v", i, ev)
+						return
+					}
+				case <-time.After(5 * time.Second):
+					readDone <- common.Failf("event-lost", "group tunnel with traffic in both directions: indication #%d of %d never surfaced", i, nInd)
+					return
+				}
+			}
+			readDone <- nil
+		}()
+		for i, e := range p.Events {
+			if err := gt.Send(e.event()); err != nil {
+				mu.Lock()
+				g := seen.garbled
+				mu.Unlock()
+				return common.Failf("send-error", "group tunnel with traffic in both directions: Send of event #%d failed: %v (first garbled datagram at the gateway: %s)", i, err, g), ""
+			}
+		}
+		if f := <-readDone; f != nil {
+			return f, ""
+		}
+		mu.Lock()
+		defer mu.Unlock()
+		if seen.garbled != "" {
+			return common.Failf("frame-garbled", "group tunnel with traffic in both directions: the gateway received a datagram that is not one well-formed frame: %s", seen.garbled), ""
+		}
+		if len(seen.events) != len(p.Events) {
+			return common.Failf("event-count", "group tunnel with traffic in both directions: %d events sent, the gateway received %d", len(p.Events), len(seen.events)), ""
+		}
+		for i, e := range p.Events {
+			if !sameEvent(e.event(), seen.events[i]) {
+				return common.Failf("event-differs", "group tunnel with traffic in both directions: event #%d sent as %+v reached the gateway as %+v", i, e.event(), seen.events[i]), ""
 			}
 		}
 	case "tunnel":
@@ -197,9 +353,13 @@ func TestC12Sock(t *testing.T) {
 		rec.Exhaustive("every payload length 1..254 once, router to router over multicast and tunnel to gateway and back over UDP")
 	}
 	common.Drive(t, rec, func(rt *rapid.T) c12SockPlan {
-		p := c12SockPlan{Kind: rapid.SampledFrom([]string{"router", "tunnel"}).Draw(rt, "kind")}
+		p := c12SockPlan{Kind: rapid.SampledFrom([]string{"router", "tunnel", "tunnel-duplex"}).Draw(rt, "kind")}
 		big := false
-		for i := 0; i < rapid.IntRange(1, 12).Draw(rt, "events"); i++ {
+		nev := rapid.IntRange(1, 12).Draw(rt, "events")
+		if p.Kind == "tunnel-duplex" {
+			nev = rapid.IntRange(20, 80).Draw(rt, "events-duplex")
+		}
+		for i := 0; i < nev; i++ {
 			e := c12Event{Cmd: rapid.IntRange(0, 2).Draw(rt, "cmd"), Dest: uint16(rapid.IntRange(1, 65535).Draw(rt, "dest"))}
 			if e.Cmd != 0 {
 				var n int
